@@ -29,7 +29,7 @@ import (
 type e2eCase struct {
 	ID     int    `json:"id"`
 	Seed   int64  `json:"seed"`
-	Class  string `json:"class"` // tiny | boundary | crossface | large | huge
+	Class  string `json:"class"` // tiny | boundary | crossface | large | huge | tolerance
 	World  string `json:"world"` // basic | compact | overlay (MutableOverlayWorld) | mutable | layered (OverlayWorld)
 	NQ     int    `json:"nq"`
 	Mutate string `json:"mutate"` // self-test only: "drop-result" removes one ID from one logged result
@@ -54,6 +54,10 @@ var verifNS = b6.Namespace("diagonal.works/verif")
 // BASE world: for a feature that exists only in the overlay the base half of the search is empty.
 const overlayKey = "overlay-world-resolves-intersects-feature-in-base-world"
 
+// pointIntersectsFeature / polylineIntersectsFeature accept a point within 1 mm of a path; the index knows nothing of
+// that tolerance, so a point and a path less than 1 mm apart on two sides of a cell boundary match but are not found.
+const toleranceKey = "match-within-1mm-tolerance-across-cell-boundary"
+
 // ingest.OverlayWorld.FindFeatures hands the query to each layer separately: IntersectsFeature is resolved per layer, so
 // features of one layer that intersect a feature of the other layer are not returned.
 const layeredKey = "static-overlay-world-resolves-intersects-feature-per-layer"
@@ -72,6 +76,9 @@ type worldSpec struct {
 	anchors []s2.LatLng // where the features are: queries are aimed here
 	scale   float64     // metres: typical feature size
 	nextID  int64
+	// queries that every battery for this world starts with (class "tolerance")
+	probePoints []s2.LatLng
+	probeLines  [][]s2.LatLng
 }
 
 func (ws *worldSpec) id() int64 { ws.nextID++; return ws.nextID }
@@ -204,6 +211,36 @@ func genWorld(rng *rand.Rand, class string, withExtras bool) *worldSpec {
 		kids := cell.ID().Children()
 		ws.closedWay([]s2.LatLng{s2.LatLngFromPoint(s2.CellFromCellID(kids[0]).Center()), s2.LatLngFromPoint(s2.CellFromCellID(kids[1]).Center()),
 			s2.LatLngFromPoint(s2.CellFromCellID(kids[2]).Center()), s2.LatLngFromPoint(s2.CellFromCellID(kids[3]).Center())}, true)
+	case "tolerance":
+		// Matches accepts a point within 1 mm of a path (pointIntersectsFeature, polylineIntersectsFeature).  Put a
+		// path 0.3 mm inside a level-16 cell along one of its edges and a point 0.3 mm outside that edge.
+		o := [][2]float64{{51.5353, -0.1249}, {40.7, -74.0}, {-1.29, 36.8}, {35.68, 139.7}}[rng.Intn(4)]
+		cell := s2.CellFromCellID(s2.CellIDFromLatLng(s2.LatLngFromDegrees(o[0]+rng.Float64()*0.01, o[1]+rng.Float64()*0.01)).Parent(16))
+		k := rng.Intn(4)
+		v0, v1, c := s2.LatLngFromPoint(cell.Vertex(k)), s2.LatLngFromPoint(cell.Vertex((k+1)%4)), s2.LatLngFromPoint(cell.Center())
+		mid := s2.LatLngFromPoint(s2.Point{Vector: cell.Vertex(k).Add(cell.Vertex((k + 1) % 4).Vector).Normalize()})
+		f = frame{mid.Lat.Degrees(), mid.Lng.Degrees()}
+		ax, ay := f.xy(v1)
+		bx, by := f.xy(v0)
+		along := xy{(ax - bx) / math.Hypot(ax-bx, ay-by), (ay - by) / math.Hypot(ax-bx, ay-by)}
+		cx, cy := f.xy(c)
+		// unit normal of the edge pointing into the cell
+		in := xy{-along.Y, along.X}
+		if in.X*cx+in.Y*cy < 0 {
+			in = xy{along.Y, -along.X}
+		}
+		l := math.Hypot(ax-bx, ay-by)
+		d := 0.0003
+		inside := []s2.LatLng{f.ll(-0.3*l*along.X+d*in.X, -0.3*l*along.Y+d*in.Y), f.ll(0.3*l*along.X+d*in.X, 0.3*l*along.Y+d*in.Y)}
+		outside := f.ll(-d*in.X, -d*in.Y)
+		ws.way(rng, inside)
+		ws.node(outside, true)
+		ws.probePoints = append(ws.probePoints, outside)
+		ws.probeLines = append(ws.probeLines, inside)
+		// and the other way round: a point just inside, a path just outside
+		ws.node(f.ll(0.1*l*along.X+d*in.X, 0.1*l*along.Y+d*in.Y), true)
+		ws.way(rng, []s2.LatLng{f.ll(-0.2*l*along.X-d*in.X, -0.2*l*along.Y-d*in.Y), f.ll(0.25*l*along.X-d*in.X, 0.25*l*along.Y-d*in.Y)})
+		ws.scale = l * logUniform(rng, 0.1, 1)
 	case "crossface":
 		o := [][2]float64{{0, 45}, {0, -45}, {0.01, 135}, {45, 0}, {35.2643896827, 45}, {-35.2643896827, -45}, {45, 90}}[rng.Intn(7)]
 		f = frame{o[0], o[1]}
@@ -464,6 +501,16 @@ func genQueries(rng *rand.Rand, ws *worldSpec, w b6.World, indexed []b6.FeatureI
 		}
 		out = append(out, nq)
 	}
+	for _, p := range ws.probePoints {
+		out = append(out, namedQuery{kind: "point", q: b6.IntersectsPoint{Point: s2.PointFromLatLng(p)}, spatial: b6.IntersectsPoint{Point: s2.PointFromLatLng(p)}})
+	}
+	for _, l := range ws.probeLines {
+		pl := make(s2.Polyline, len(l))
+		for i, ll := range l {
+			pl[i] = s2.PointFromLatLng(ll)
+		}
+		out = append(out, namedQuery{kind: "polyline", q: b6.IntersectsPolyline{Polyline: &pl}, spatial: b6.IntersectsPolyline{Polyline: &pl}})
+	}
 	for len(out) < n {
 		switch rng.Intn(6) {
 		case 0: // cap
@@ -697,6 +744,10 @@ func runE2E(data json.RawMessage) vh.Verdict {
 					key = fmt.Sprintf("prefilter-miss query=%s feature=%s", nq.kind, id.Type)
 					if explainedByFaceCell(fcov, qcov, ftok) {
 						key = faceKey
+					} else if _, _, rel := relatedUnion(fcov, qcov); !rel && qok && withinTolerance(nq.spatial, features[i], w) {
+						// the two coverings do not meet at all: the regions are disjoint and only the 1 mm tolerance of
+						// Matches makes this a match
+						key = toleranceKey
 					}
 				}
 				fail(e, key, fmt.Sprintf("world %s/%s seed %d case %d: %s: Matches(%s) is true but FindFeatures does not return it; feature covering %v tokens %v; query covering %v tokens %v",
@@ -759,6 +810,59 @@ func runE2E(data json.RawMessage) vh.Verdict {
 		v.Key, v.Msg = first.Key, first.What
 	}
 	return v
+}
+
+// withinTolerance: the query is a point or polyline (or a feature with such a geometry), the feature a path or point,
+// and the two geometries do not touch: their distance is positive.
+func withinTolerance(q b6.Query, f b6.Feature, w b6.World) bool {
+	var qp []s2.Point
+	switch q := q.(type) {
+	case b6.IntersectsPoint:
+		qp = []s2.Point{q.Point}
+	case b6.IntersectsPolyline:
+		qp = []s2.Point(*q.Polyline)
+	case b6.IntersectsFeature:
+		g, ok := w.FindFeatureByID(q.ID).(b6.PhysicalFeature)
+		if !ok {
+			return false
+		}
+		switch g.GeometryType() {
+		case b6.GeometryTypePoint:
+			qp = []s2.Point{g.Point()}
+		case b6.GeometryTypePath:
+			qp = []s2.Point(*g.Polyline())
+		default:
+			return false
+		}
+	default:
+		return false
+	}
+	g, ok := f.(b6.PhysicalFeature)
+	if !ok {
+		return false
+	}
+	var fp []s2.Point
+	switch g.GeometryType() {
+	case b6.GeometryTypePoint:
+		fp = []s2.Point{g.Point()}
+	case b6.GeometryTypePath:
+		fp = []s2.Point(*g.Polyline())
+	default:
+		return false
+	}
+	if len(qp) > 1 && len(fp) > 1 {
+		return false // path against path has no tolerance
+	}
+	if len(qp) == 1 && len(fp) == 1 {
+		return false
+	}
+	p, line := qp[0], fp
+	if len(qp) > 1 {
+		p, line = fp[0], qp
+	}
+	pl := s2.Polyline(line)
+	d := minDist(p, polylineEdges(&pl))
+	return d > 1e-13 && d < metersToAngle(0.001)
 }
 
 // explainedByFaceCell: the feature's covering has a level-0 cell related to the query covering, every other
